@@ -159,7 +159,9 @@ def extra(tier, seed, stats):
     from vlib import gen as _gen
     groups = [["1", "2", "3", "10"], ["007", "0", "00", "7"], ["seq", "seq1", "seq10", "seq100"], ["seq100", "seq10", "seq1", "seq"],
               ["abc", "ABC", "Abc", "aBC"], ["-a", "a-", "_", "x.y.z"], ["|x|", "a|b|c", "sp|P12345|NAME_HUMAN", "tr|Q9|X_Y"],
-              ["1e5", "0x1F", "-1", "1.5"], ["a.1", "a.2", "a_1", "a-1"], ["123456789012345678901234567890", "12345678901234567890123456789", "9", "99"]]
+              ["1e5", "0x1F", "-1", "1.5"], ["a.1", "a.2", "a_1", "a-1"], ["123456789012345678901234567890", "12345678901234567890123456789", "9", "99"],
+              # rows may share a name (nothing in the formats forbids it): rows are rows, whatever they are called
+              ["a", "b", "a", "c"], ["x", "x", "x", "x"], ["P1|kinase_A", "q", "P1|kinase_A", "r"], ["dup", "dup", "u1", "u2"], ["u1", "u2", "dup", "dup"]]
     words = list(_gen.FORMAT_WORDS)
     for i in range(0, len(words), 4):
         g = words[i:i + 4]
